@@ -4,6 +4,7 @@ import (
 	"fmt"
 	"net/netip"
 	"sort"
+	"strings"
 	"time"
 
 	"github.com/uhppoted/uhppote-core/types"
@@ -153,6 +154,42 @@ func runC17(o Opts) error {
 	// collected before any is decoded (socket-level stream shared with C11)
 	if s.ReplayWants("net-") {
 		netC11(s, o.Tier)
+	}
+
+	// delivered events must not depend on the listener's receive buffer or on anything shared between deliveries: the
+	// same valid events through the REAL listener one at a time and then back to back (where the next datagram is read
+	// while the previous status is still being built or used) must be delivered as the same statuses
+	if s.ReplayWants("net-") {
+		lr := NewRand(o.Seed, "C17-listen")
+		rounds := 3
+		if o.Tier == "thorough" {
+			rounds = 20
+		}
+		port := freeUDPPort()
+		for k := 0; k < rounds; k++ {
+			n := 30 + lr.Intn(40)
+			var ds [][]byte
+			for i := 0; i < n; i++ {
+				ds = append(ds, genReply(lr, "GetStatusResponse", genID(lr), 0, map[string]uint64{"SequenceId": uint64(i + 1), "EventIndex": uint64(1000*k + i + 1)}))
+			}
+			single, f1 := listenSession(port, ds, 1, false)
+			burst, f2 := listenSession(port, ds, 1, true)
+			for _, f := range append(f1, f2...) {
+				s.Fail(map[string]any{"op": "net-listen-buffers", "events": n}, "listener: "+f)
+			}
+			if len(f1)+len(f2) == 0 && strings.Join(single, "|") != strings.Join(burst, "|") {
+				bad := 0
+				for i := range single {
+					if i >= len(burst) || single[i] != burst[i] {
+						bad = i
+						break
+					}
+				}
+				s.Fail(map[string]any{"op": "net-listen-buffers", "events": n, "first_difference": bad, "datagram": hexs(ds[bad])},
+					"the same events are delivered as different statuses when they arrive back to back (a delivered status depends on a later datagram)")
+			}
+		}
+		s.Extra["listener_buffer_rounds"] = rounds
 	}
 
 	// cloning: equal value, no shared mutable storage
